@@ -112,7 +112,7 @@ func (p Projector) date(has bool, t time.Time) int {
 
 func (p Projector) Key(id gtfs.TripID) Key {
 	k := Key{
-		ID:    strTok(TripIDs, id.ID),
+		ID:    tripIDTok(id.ID),
 		Route: strTok(RouteIDs, id.RouteID),
 		Dir:   int(id.DirectionID),
 		HasST: id.HasStartTime,
